@@ -7,6 +7,7 @@ from checks.common import run_components, finish_standard, replay_standard
 COMPONENTS = [
     {'name': 'c03', 'oracle': False, 'what': 'structured mutation of valid files, full public API sequence, checked build'},
     {'name': 'alpha', 'oracle': True, 'what': 'alpha application loop'},
+    {'name': 'c08', 'oracle': True, 'what': 'container layer on well-formed and malformed files (error class and no panic)'},
 ]
 
 
@@ -25,7 +26,10 @@ def check(run):
         assumptions=['panic = any unwinding panic of the debug (overflow-checked) build; abort-type failures (stack overflow, OOM) would kill the harness and fail the check',
                      'time bound: watchdog of 20 s + len/50kB s per mutant; max observed time is reported'],
         extra={'functions_under_safety_theorem': ['alpha_blending::do_alpha_blending (+ kernels)', 'vp8::Frame::fill_rgb / fill_rgba (+ row kernels, mulhi, clip)',
-                                                  'decoder.rs alpha loop + extended::get_alpha_predictor'],
+                                                  'decoder.rs alpha loop + extended::get_alpha_predictor',
+                                                  'decoder.rs WebPDecoder::new / read_data / read_chunk / metadata getters (every byte string)',
+                                                  'vp8_arithmetic_decoder.rs (every byte string, every request script)',
+                                                  'lossless_transform.rs scalar kernels, lossless.rs subsample_size'],
                'max_time_s': c.get('max_time_s'), 'panics': c.get('panics')})
 
 
